@@ -208,6 +208,10 @@ def twins():
     return [('stokes', ('comp', (L('R'), L('R2')))), ('vec', ('comp', (L('k'), L('A'), L('k2'))))]
 
 
+def extra_coverage(results):
+    return dict(translator_validations=sum(r.get('translator_validated', 0) for r in results))
+
+
 def _pinv_param_atoms(fam, e):
     """Atoms of diagonal leaves that occur under an inverse (pseudo-inverse collapse finding)."""
     bld = Builder(fam)
@@ -289,7 +293,15 @@ def run_case(key, twin=False):
                   smt_digest=res.digest, rewritten=changed)
     common = dict(prims=sorted(ctx.prims), **dec.stats())
     if res.status == 'unsat':
-        r = ok(nontrivial=bool(changed), sample=sample, **common)
+        # translator validation on a deterministic 1/6 of the programs: interpreter vs. the real library at random rationals
+        import zlib
+        validated = None
+        if zlib.crc32(repr(key).encode()) % 6 == 0 and not twin:
+            from ..programs import numeric_validate
+            validated = numeric_validate(ctx, fam, e, lambda op, x: op.mv(x), Lv, xin)
+            if validated is not None and not validated[0]:
+                raise RuntimeError(f'translator validation failed for {show(e)}: {validated[1]}')
+        r = ok(nontrivial=bool(changed), sample=sample, translator_validated=int(bool(validated)), **common)
         return r
     if res.status == 'unknown':
         return inconclusive(f'solver: {res.reason}', **common)
